@@ -35,7 +35,7 @@ impl PropResult {
 pub fn common_assumptions() -> Vec<String> {
     vec![
         "pearl is built from /repo with cargo feature pearl_verif (hooks only add observation points)".into(),
-        "release-like profile: opt-level 2, no debug assertions, no overflow checks".into(),
+        "release-like profile: opt-level 2, no debug assertions, overflow checks ON (a wrapped subtraction in pearl is reported as a panic)".into(),
         "scratch directories on tmpfs (/dev/shm); file-system semantics assumed POSIX".into(),
     ]
 }
